@@ -146,9 +146,14 @@ func (c *FileCache[MetadataT]) Get(key CacheKey) (*Entry[MetadataT], error) {
 
 	metrics.Global.Cache.CacheHits.Increment()
 	slog.Debug("Successful cache hit", "key", key.Hex)
+
+	// Hand out a copy taken under the key lock: the caller reads it after the lock is released,
+	// while the stored metadata keeps being updated by other requests.
+	metaCopy := *entryMeta
+
 	return &Entry[MetadataT]{
 		Data:     dataFile,
-		Metadata: entryMeta,
+		Metadata: &metaCopy,
 		Stale:    stale,
 	}, nil
 }
@@ -237,9 +242,11 @@ func (c *FileCache[MetadataT]) Cache(key CacheKey, data io.Reader, expires time.
 		return nil, fmt.Errorf("%w: failed to open written cache file '%s'", ErrCacheFileRead, fileName)
 	}
 
+	metaCopy := *meta // the caller gets its own copy, see Get
+
 	return &Entry[MetadataT]{
 		Data:     file,
-		Metadata: meta,
+		Metadata: &metaCopy,
 	}, nil
 }
 
@@ -299,6 +306,8 @@ func (c *FileCache[MetadataT]) GetMetadata(key CacheKey) (meta *EntryMetadata[Me
 
 	metaPtr.LastAccess = time.Now() // Now safe because we have a full Lock
 
+	metaCopy := *metaPtr // the caller gets its own copy, see Get
+
 	slog.Debug("Successfully retrieved metadata", "key", key.Hex)
-	return metaPtr, stale, nil
+	return &metaCopy, stale, nil
 }
